@@ -17,11 +17,11 @@ def key_of(rj):
         return 'trace'
 
 
-def bind(ck, tag='c11'):
+def bind(ck, tag='c11', big=True):
     """binding of the real Blake2b code to the TLA+ definition (also used by C02 for the Blake2b arrows of the composition)"""
     exe = vlib.build_harness('rx_blake')
     tr = os.path.join(vlib.WORK, tag + '.ndjson')
-    lines = vlib.run_harness([exe, '--seed', str(ck.seed), '--tier', ck.tier, '--out', tr], tr, timeout=300)
+    lines = vlib.run_harness([exe, '--seed', str(ck.seed), '--tier', ck.tier, '--big', '1' if big else '0', '--out', tr], tr, timeout=900)
     res = vlib.validate_sharded('TraceBlake', 'TraceBlake.cfg', lines, tag, shards=16, timeout=1500)
     ck.add_traces('TraceBlake', res, 'one-shot / streaming / blake2b_long / commitment calls on the real code')
     ck.reject('TraceBlake', res, key_of)
